@@ -9,6 +9,12 @@ type nat =
 | O
 | S of nat
 
+(** val option_map : ('a1 -> 'a2) -> 'a1 option -> 'a2 option **)
+
+let option_map f = function
+| Some a -> Some (f a)
+| None -> None
+
 (** val fst : ('a1 * 'a2) -> 'a1 **)
 
 let fst = function
@@ -123,6 +129,13 @@ module Coq__1 = struct
    | S p -> S (add p m)
 end
 include Coq__1
+
+(** val mul : nat -> nat -> nat **)
+
+let rec mul n0 m =
+  match n0 with
+  | O -> O
+  | S p -> add m (mul p m)
 
 (** val sub : nat -> nat -> nat **)
 
@@ -391,6 +404,39 @@ module Coq_Pos =
   let rec of_succ_nat = function
   | O -> XH
   | S x -> succ (of_succ_nat x)
+
+  (** val of_uint_acc : uint -> positive -> positive **)
+
+  let rec of_uint_acc d acc =
+    match d with
+    | Nil -> acc
+    | D0 l -> of_uint_acc l (mul (XO (XI (XO XH))) acc)
+    | D1 l -> of_uint_acc l (add XH (mul (XO (XI (XO XH))) acc))
+    | D2 l -> of_uint_acc l (add (XO XH) (mul (XO (XI (XO XH))) acc))
+    | D3 l -> of_uint_acc l (add (XI XH) (mul (XO (XI (XO XH))) acc))
+    | D4 l -> of_uint_acc l (add (XO (XO XH)) (mul (XO (XI (XO XH))) acc))
+    | D5 l -> of_uint_acc l (add (XI (XO XH)) (mul (XO (XI (XO XH))) acc))
+    | D6 l -> of_uint_acc l (add (XO (XI XH)) (mul (XO (XI (XO XH))) acc))
+    | D7 l -> of_uint_acc l (add (XI (XI XH)) (mul (XO (XI (XO XH))) acc))
+    | D8 l ->
+      of_uint_acc l (add (XO (XO (XO XH))) (mul (XO (XI (XO XH))) acc))
+    | D9 l ->
+      of_uint_acc l (add (XI (XO (XO XH))) (mul (XO (XI (XO XH))) acc))
+
+  (** val of_uint : uint -> n **)
+
+  let rec of_uint = function
+  | Nil -> N0
+  | D0 l -> of_uint l
+  | D1 l -> Npos (of_uint_acc l XH)
+  | D2 l -> Npos (of_uint_acc l (XO XH))
+  | D3 l -> Npos (of_uint_acc l (XI XH))
+  | D4 l -> Npos (of_uint_acc l (XO (XO XH)))
+  | D5 l -> Npos (of_uint_acc l (XI (XO XH)))
+  | D6 l -> Npos (of_uint_acc l (XO (XI XH)))
+  | D7 l -> Npos (of_uint_acc l (XI (XI XH)))
+  | D8 l -> Npos (of_uint_acc l (XO (XO (XO XH))))
+  | D9 l -> Npos (of_uint_acc l (XI (XO (XO XH))))
 
   (** val to_little_uint : positive -> uint **)
 
@@ -763,6 +809,17 @@ module Z =
   | N0 -> Z0
   | Npos p -> Zpos p
 
+  (** val of_uint : uint -> z **)
+
+  let of_uint d =
+    of_N (Coq_Pos.of_uint d)
+
+  (** val of_int : signed_int -> z **)
+
+  let of_int = function
+  | Pos d0 -> of_uint d0
+  | Neg d0 -> opp (of_uint d0)
+
   (** val to_int : z -> signed_int **)
 
   let to_int = function
@@ -843,6 +900,110 @@ let py_pos n0 i =
   then None
   else Some (Z.to_nat (if Z.ltb i Z0 then Z.add i n' else i))
 
+(** val uint_of_char : char -> uint option -> uint option **)
+
+let uint_of_char a = function
+| Some d0 ->
+  (* If this appears, you're using Ascii internals. Please don't *)
+ (fun f c ->
+  let n = Char.code c in
+  let h i = (n land (1 lsl i)) <> 0 in
+  f (h 0) (h 1) (h 2) (h 3) (h 4) (h 5) (h 6) (h 7))
+    (fun b b0 b1 b2 b3 b4 b5 b6 ->
+    if b
+    then if b0
+         then if b1
+              then if b2
+                   then None
+                   else if b3
+                        then if b4
+                             then if b5
+                                  then None
+                                  else if b6 then None else Some (D7 d0)
+                             else None
+                        else None
+              else if b2
+                   then None
+                   else if b3
+                        then if b4
+                             then if b5
+                                  then None
+                                  else if b6 then None else Some (D3 d0)
+                             else None
+                        else None
+         else if b1
+              then if b2
+                   then None
+                   else if b3
+                        then if b4
+                             then if b5
+                                  then None
+                                  else if b6 then None else Some (D5 d0)
+                             else None
+                        else None
+              else if b2
+                   then if b3
+                        then if b4
+                             then if b5
+                                  then None
+                                  else if b6 then None else Some (D9 d0)
+                             else None
+                        else None
+                   else if b3
+                        then if b4
+                             then if b5
+                                  then None
+                                  else if b6 then None else Some (D1 d0)
+                             else None
+                        else None
+    else if b0
+         then if b1
+              then if b2
+                   then None
+                   else if b3
+                        then if b4
+                             then if b5
+                                  then None
+                                  else if b6 then None else Some (D6 d0)
+                             else None
+                        else None
+              else if b2
+                   then None
+                   else if b3
+                        then if b4
+                             then if b5
+                                  then None
+                                  else if b6 then None else Some (D2 d0)
+                             else None
+                        else None
+         else if b1
+              then if b2
+                   then None
+                   else if b3
+                        then if b4
+                             then if b5
+                                  then None
+                                  else if b6 then None else Some (D4 d0)
+                             else None
+                        else None
+              else if b2
+                   then if b3
+                        then if b4
+                             then if b5
+                                  then None
+                                  else if b6 then None else Some (D8 d0)
+                             else None
+                        else None
+                   else if b3
+                        then if b4
+                             then if b5
+                                  then None
+                                  else if b6 then None else Some (D0 d0)
+                             else None
+                        else None)
+    a
+| None -> None
+
 module NilEmpty =
  struct
   (** val string_of_uint : uint -> char list **)
@@ -859,6 +1020,12 @@ module NilEmpty =
   | D7 d0 -> '7'::(string_of_uint d0)
   | D8 d0 -> '8'::(string_of_uint d0)
   | D9 d0 -> '9'::(string_of_uint d0)
+
+  (** val uint_of_string : char list -> uint option **)
+
+  let rec uint_of_string = function
+  | [] -> Some Nil
+  | a::s1 -> uint_of_char a (uint_of_string s1)
  end
 
 module NilZero =
@@ -869,11 +1036,26 @@ module NilZero =
   | Nil -> '0'::[]
   | _ -> NilEmpty.string_of_uint d
 
+  (** val uint_of_string : char list -> uint option **)
+
+  let uint_of_string s = match s with
+  | [] -> None
+  | _::_ -> NilEmpty.uint_of_string s
+
   (** val string_of_int : signed_int -> char list **)
 
   let string_of_int = function
   | Pos d0 -> string_of_uint d0
   | Neg d0 -> '-'::(string_of_uint d0)
+
+  (** val int_of_string : char list -> signed_int option **)
+
+  let int_of_string s = match s with
+  | [] -> None
+  | a::s' ->
+    if (=) a '-'
+    then option_map (fun x -> Neg x) (uint_of_string s')
+    else option_map (fun x -> Pos x) (uint_of_string s)
  end
 
 (** val type_order : (char list * z) list **)
@@ -4870,3 +5052,258 @@ let conv_broken =
 
 let conv_empty =
   stateless (fun _ -> [])
+
+(** val unhex_digit : char -> nat option **)
+
+let unhex_digit c =
+  let n0 = nat_of_ascii c in
+  if (&&)
+       (Nat.leb (S (S (S (S (S (S (S (S (S (S (S (S (S (S (S (S (S (S (S (S
+         (S (S (S (S (S (S (S (S (S (S (S (S (S (S (S (S (S (S (S (S (S (S (S
+         (S (S (S (S (S O)))))))))))))))))))))))))))))))))))))))))))))))) n0)
+       (Nat.leb n0 (S (S (S (S (S (S (S (S (S (S (S (S (S (S (S (S (S (S (S
+         (S (S (S (S (S (S (S (S (S (S (S (S (S (S (S (S (S (S (S (S (S (S (S
+         (S (S (S (S (S (S (S (S (S (S (S (S (S (S (S
+         O))))))))))))))))))))))))))))))))))))))))))))))))))))))))))
+  then Some
+         (sub n0 (S (S (S (S (S (S (S (S (S (S (S (S (S (S (S (S (S (S (S (S
+           (S (S (S (S (S (S (S (S (S (S (S (S (S (S (S (S (S (S (S (S (S (S
+           (S (S (S (S (S (S
+           O)))))))))))))))))))))))))))))))))))))))))))))))))
+  else if (&&)
+            (Nat.leb (S (S (S (S (S (S (S (S (S (S (S (S (S (S (S (S (S (S (S
+              (S (S (S (S (S (S (S (S (S (S (S (S (S (S (S (S (S (S (S (S (S
+              (S (S (S (S (S (S (S (S (S (S (S (S (S (S (S (S (S (S (S (S (S
+              (S (S (S (S (S (S (S (S (S (S (S (S (S (S (S (S (S (S (S (S (S
+              (S (S (S (S (S (S (S (S (S (S (S (S (S (S (S
+              O)))))))))))))))))))))))))))))))))))))))))))))))))))))))))))))))))))))))))))))))))))))))))))))))))
+              n0)
+            (Nat.leb n0 (S (S (S (S (S (S (S (S (S (S (S (S (S (S (S (S (S (S
+              (S (S (S (S (S (S (S (S (S (S (S (S (S (S (S (S (S (S (S (S (S
+              (S (S (S (S (S (S (S (S (S (S (S (S (S (S (S (S (S (S (S (S (S
+              (S (S (S (S (S (S (S (S (S (S (S (S (S (S (S (S (S (S (S (S (S
+              (S (S (S (S (S (S (S (S (S (S (S (S (S (S (S (S (S (S (S (S (S
+              O)))))))))))))))))))))))))))))))))))))))))))))))))))))))))))))))))))))))))))))))))))))))))))))))))))))))
+       then Some
+              (sub n0 (S (S (S (S (S (S (S (S (S (S (S (S (S (S (S (S (S (S
+                (S (S (S (S (S (S (S (S (S (S (S (S (S (S (S (S (S (S (S (S
+                (S (S (S (S (S (S (S (S (S (S (S (S (S (S (S (S (S (S (S (S
+                (S (S (S (S (S (S (S (S (S (S (S (S (S (S (S (S (S (S (S (S
+                (S (S (S (S (S (S (S (S (S
+                O))))))))))))))))))))))))))))))))))))))))))))))))))))))))))))))))))))))))))))))))))))))))
+       else None
+
+(** val ocons :
+    char -> (char list * char list) option -> (char list * char list) option **)
+
+let ocons c = function
+| Some p -> let (s, rest) = p in Some ((c::s), rest)
+| None -> None
+
+(** val read_body : char -> char list -> (char list * char list) option **)
+
+let rec read_body q = function
+| [] -> None
+| c::r ->
+  if (=) c q
+  then Some ([], r)
+  else if (=) c bs
+       then (match r with
+             | [] -> None
+             | d::r2 ->
+               if (||) ((||) ((=) d bs) ((=) d sq)) ((=) d dq)
+               then ocons d (read_body q r2)
+               else if (=) d 't'
+                    then ocons tab (read_body q r2)
+                    else if (=) d 'n'
+                         then ocons nl (read_body q r2)
+                         else if (=) d 'r'
+                              then ocons cr (read_body q r2)
+                              else if (=) d 'x'
+                                   then (match r2 with
+                                         | [] -> None
+                                         | h1::s1 ->
+                                           (match s1 with
+                                            | [] -> None
+                                            | h2::r3 ->
+                                              (match unhex_digit h1 with
+                                               | Some a ->
+                                                 (match unhex_digit h2 with
+                                                  | Some b ->
+                                                    ocons
+                                                      (ascii_of_nat
+                                                        (add
+                                                          (mul (S (S (S (S (S
+                                                            (S (S (S (S (S (S
+                                                            (S (S (S (S (S
+                                                            O))))))))))))))))
+                                                            a) b))
+                                                      (read_body q r3)
+                                                  | None -> None)
+                                               | None -> None)))
+                                   else None)
+       else ocons c (read_body q r)
+
+(** val read_str : char list -> (char list * char list) option **)
+
+let read_str = function
+| [] -> None
+| q::r -> if (||) ((=) q sq) ((=) q dq) then read_body q r else None
+
+(** val read_item : char list -> (char list option * char list) option **)
+
+let read_item s =
+  match prefix_rest ('N'::('o'::('n'::('e'::[])))) s with
+  | Some r -> Some (None, r)
+  | None ->
+    (match read_str s with
+     | Some p -> let (x, r) = p in Some ((Some x), r)
+     | None -> None)
+
+(** val read_items :
+    nat -> char list -> (char list option list * char list) option **)
+
+let rec read_items fuel s =
+  match fuel with
+  | O -> None
+  | S f ->
+    (match s with
+     | [] -> None
+     | c::r ->
+       if (=) c ']'
+       then Some ([], r)
+       else (match read_item s with
+             | Some p ->
+               let (x, r1) = p in
+               (match prefix_rest (','::(' '::[])) r1 with
+                | Some r2 ->
+                  (match read_items f r2 with
+                   | Some p0 -> let (l, rest) = p0 in Some ((x :: l), rest)
+                   | None -> None)
+                | None ->
+                  (match r1 with
+                   | [] -> None
+                   | c2::r3 ->
+                     if (=) c2 ']' then Some ((x :: []), r3) else None))
+             | None -> None))
+
+(** val read_names :
+    char list -> (char list option list * char list) option **)
+
+let read_names s = match s with
+| [] -> None
+| c::r -> if (=) c '[' then read_items (length0 s) r else None
+
+(** val tpl_split :
+    char list -> char list -> char list option -> char list list * char list
+    list **)
+
+let rec tpl_split s cur = function
+| Some acc ->
+  (match s with
+   | [] -> ([], ((rev_str acc []) :: []))
+   | c::r ->
+     if (=) c '}'
+     then let (segs, names) = tpl_split r [] None in
+          (segs, ((rev_str acc []) :: names))
+     else tpl_split r cur (Some (c::acc)))
+| None ->
+  (match s with
+   | [] -> (((rev_str cur []) :: []), [])
+   | c::r ->
+     if (=) c '{'
+     then let (segs, names) = tpl_split r [] (Some []) in
+          (((rev_str cur []) :: segs), names)
+     else tpl_split r (c::cur) None)
+
+(** val segments : bool -> char list list **)
+
+let segments h =
+  fst (tpl_split (template_of_hints h) [] None)
+
+type ctuple = { t_endogenous : char list option list;
+                t_exogenous : char list option list;
+                t_parameters : char list option list;
+                t_errors : char list option list; t_lags : z; t_leads : 
+                z; t_block : char list }
+
+(** val is_intc : char -> bool **)
+
+let is_intc c =
+  (||) (is_digit c) ((=) c '-')
+
+(** val read_int : char list -> (z * char list) option **)
+
+let read_int s =
+  let (d, rest) = span_while is_intc s in
+  (match NilZero.int_of_string d with
+   | Some i -> Some ((Z.of_int i), rest)
+   | None -> None)
+
+(** val read_with : char list list -> char list -> ctuple option **)
+
+let read_with segs text =
+  let sg = fun i -> nth i segs [] in
+  (match sg (S (S (S (S (S (S (S O))))))) with
+   | [] ->
+     (match prefix_rest (sg O) text with
+      | Some r0 ->
+        (match read_names r0 with
+         | Some p ->
+           let (en, r1) = p in
+           (match prefix_rest (sg (S O)) r1 with
+            | Some r2 ->
+              (match read_names r2 with
+               | Some p0 ->
+                 let (ex, r3) = p0 in
+                 (match prefix_rest (sg (S (S O))) r3 with
+                  | Some r4 ->
+                    (match read_names r4 with
+                     | Some p1 ->
+                       let (pa, r5) = p1 in
+                       (match prefix_rest (sg (S (S (S O)))) r5 with
+                        | Some r6 ->
+                          (match read_names r6 with
+                           | Some p2 ->
+                             let (er, r7) = p2 in
+                             (match prefix_rest (sg (S (S (S (S O))))) r7 with
+                              | Some r8 ->
+                                (match read_int r8 with
+                                 | Some p3 ->
+                                   let (lg, r9) = p3 in
+                                   (match prefix_rest
+                                            (sg (S (S (S (S (S O)))))) r9 with
+                                    | Some r10 ->
+                                      (match read_int r10 with
+                                       | Some p4 ->
+                                         let (ld, r11) = p4 in
+                                         (match prefix_rest
+                                                  (sg (S (S (S (S (S (S
+                                                    O))))))) r11 with
+                                          | Some block ->
+                                            Some { t_endogenous = en;
+                                              t_exogenous = ex;
+                                              t_parameters = pa; t_errors =
+                                              er; t_lags = lg; t_leads = ld;
+                                              t_block = block }
+                                          | None -> None)
+                                       | None -> None)
+                                    | None -> None)
+                                 | None -> None)
+                              | None -> None)
+                           | None -> None)
+                        | None -> None)
+                     | None -> None)
+                  | None -> None)
+               | None -> None)
+            | None -> None)
+         | None -> None)
+      | None -> None)
+   | _::_ -> None)
+
+(** val exec_M : char list -> ctuple option **)
+
+let exec_M text =
+  match read_with (segments true) text with
+  | Some t -> Some t
+  | None -> read_with (segments false) text
